@@ -69,6 +69,14 @@ class MachineryError(Exception):
     pass
 
 
+def lockfile():
+    """Cargo.lock of the repository (untracked there, so a git snapshot of /repo has none: fall back to /repo's)"""
+    for p in (os.path.join(REPO, "Cargo.lock"), "/repo/Cargo.lock"):
+        if os.path.exists(p):
+            return p
+    raise MachineryError("no Cargo.lock found")
+
+
 # ------------------------------------------------------------------ crate writing
 
 LIB_HEAD = """#![allow(dead_code, unused_imports, unused_variables, unused_mut, deprecated, non_snake_case, non_camel_case_types, unreachable_patterns, unreachable_code, unused_parens, unused_assignments, unused_must_use, clippy::all)]
@@ -107,7 +115,7 @@ unexpected_cfgs = { level = "allow" }
 [profile.release]
 debug = false
 """ % (crate_name(pid), REPO, feats))
-    shutil.copy(os.path.join(REPO, "Cargo.lock"), os.path.join(cdir, "Cargo.lock"))
+    shutil.copy(lockfile(), os.path.join(cdir, "Cargo.lock"))
     shutil.copy(os.path.join(VERIF, "support", "support.rs"), os.path.join(cdir, "src", "support.rs"))
     lib = [LIB_HEAD.replace("#![cfg_attr(kani, feature(register_tool))]\n", "")]
     regions = {}
@@ -127,7 +135,7 @@ debug = false
         f.write("\n".join(lib) + "\n")
     with open(os.path.join(cdir, "replay", "src", "main.rs"), "w") as f:
         f.write(REPLAY_MAIN.replace("CRATE", crate_name(pid)))
-    shutil.copy(os.path.join(REPO, "Cargo.lock"), os.path.join(cdir, "replay", "Cargo.lock"))
+    shutil.copy(lockfile(), os.path.join(cdir, "replay", "Cargo.lock"))
     return regions
 
 
